@@ -405,6 +405,8 @@ func (r *reader) _readEvent(canary byte) (m Message, err error) {
 
 	if err != nil {
 		r.log("got err: %v", err)
+		// the error of the source must not get lost: the next read may well succeed
+		return m, err
 	}
 
 	if isMetaEndOfTrackMsg {
